@@ -406,3 +406,19 @@ def shrink(case, still_fails):
             except Exception:
                 pass
     return cur
+
+
+# ------------------------------------------------------------------ translator tie
+TIE_TARGETS = ["props/C07_tie.vo"]
+
+
+def regen(chk):
+    """regenerate gen/Gen_composite.v from the current weighted.py / uniform.py"""
+    import os
+    from . import common
+    from py2coq import units
+    res = units.regen(common.REPO, os.path.join(common.COQDIR, "gen"), ["Gen_composite.v"])
+    chk.coverage["translator"] = res
+    bad = [v for v in res.values() if v != "ok"]
+    if bad:
+        raise RuntimeError(bad[0])
